@@ -19,7 +19,7 @@ MANIFEST = {
     'text': ('QRV/Props/C14.lean and C14Complete.lean prove for the model of reedsolomon.Decode/poly.go, for every parity length and every word: it never panics and every loop terminates; success implies all '
              'syndromes of the returned buffer are zero and at most floor(n/2) positions changed; a clean codeword is returned unchanged; and (dec_complete) every word within floor(n/2) of a '
              'codeword of length <= 255 is restored to exactly that codeword - Sugiyama\'s algorithm: key equation, Euclidean invariant, uniqueness of the solution, Chien search finds exactly the '
-             'error locators, Forney gives the error values - plus the minimum distance n+1 of the code. The model is tied to the Go code by differential runs for every n with damage within and beyond capacity.'),
+             'error locators, Forney gives the error values - plus the minimum distance n+1 of the code, and two corollaries: an error answer means no codeword of that length lies within floor(n/2) of the input (dec_err_far), and words within floor(n/2) of one codeword get one answer (dec_same_answer). The model is tied to the Go code by differential runs for every n with damage within and beyond capacity.'),
     'note': ('Trusted: Lean kernel; Mathlib (polynomial algebra over a Field instance built from the proved GF laws) in proof-only modules; hand-written Model/RS.lean tied by correspondence on generated words; '
              'aliasing inside poly.go (Add/MulElement mutate the receiver) is invisible to the value-level model and is guarded only by the differential run.'),
 }
